@@ -73,6 +73,8 @@ def observe_component(sc, st, rec=None, post_cmds=(), filter_text=None, break_te
             steps.append(('line', s[1]))
         elif s[0] == 'cmd':
             steps.append(('cmd', s[1]))
+        elif s[0] == 'close':
+            steps.append(('close', s[1]))
     res = rig.run_component(steps, filter_text=filter_text, break_text=break_text,
                             show_unprocessed=not sc['config'].get('suppress', False), color=color, rec=rec,
                             listener_factory=lambda cm: tr.make(), post_cmds=post_cmds)
